@@ -179,4 +179,27 @@ def cachedSet : List RStep := [.store, .other, .retIfNil, .store, .memWrite, .re
 /-- driver entry: the regenerated getter program on an absent / present record and an empty / filled memory -/
 def switchGetOp (mem : Option Params) (store : ParStore) : Params := (runGetter switchGet mem store).2
 
+/-! ## a derived value cached under a FINGERPRINT of the record it was derived from -/
+
+/-- `CheckDisabledPrecompiles` with a lookup structure (`derive`) that is rebuilt only when the fingerprint `fp` of the
+parameters read from the context's store differs from the fingerprint it was built for; output = `derive` of … applied to the name -/
+def fingerHandler {F D : Type} [DecidableEq F] (fp : Params → F) (derive : Params → D) (ask : D → String → Bool) :
+    Handler (Option (F × D)) ParStore ParMsg Bool := fun mem store m =>
+  match m with
+  | .update p ok => (mem, if ok then some p else store, false)
+  | .use name =>
+    let p := paramsOf store
+    match mem with
+    | some (f, d) => if f = fp p then (mem, store, ask d name) else (some (fp p, derive p), store, ask (derive p) name)
+    | none => (some (fp p, derive p), store, ask (derive p) name)
+
+/-- memory is always "the structure derived from some parameters, under their fingerprint" -/
+def fingerInv {F D : Type} (fp : Params → F) (derive : Params → D) (mem : Option (F × D)) : Prop :=
+  ∀ f d, mem = some (f, d) → ∃ p, f = fp p ∧ d = derive p
+
+/-- what `fingerHandler` computes, without any memory -/
+def derivePure {D : Type} (derive : Params → D) (ask : D → String → Bool) (store : ParStore) : ParMsg → ParStore × Bool
+  | .update p ok => (if ok then some p else store, false)
+  | .use name => (store, ask (derive (paramsOf store)) name)
+
 end FxVerif.Model.C17
